@@ -10,7 +10,8 @@ DECIDED = ("for every public install root, in each of the three entry classes (A
            "unmodified replacement pointer, Thumb bit kept (R16.1); the write/read address is the function pointer with bit 0 cleared "
            "(R16.2); saved length = written length = 12 at that address (R16.3); Rt is not a register the AAPCS requires a callee to "
            "preserve (R16.4); the restore guard records that same address and length, so the saved bytes go back to exactly the overwritten "
-           "range (R16.5)")
+           "range (R16.5)"
+           " Every returning path of an install root writes the function's entry; A32 instruction words must carry the condition AL.")
 NOT_DECIDED = "that the core executes the halfwords as the table says; atomicity of the 12-byte write"
 
 AAPCS_PRESERVED = {"r4", "r5", "r6", "r7", "r8", "r9", "r10", "r11", "sp", "lr", "r13", "r14"}
